@@ -153,7 +153,7 @@ package deflate
 //@   ensures[C01 C14 expand] histCodesOK(h)
 //@   loop 1 invariant 1 <= bits && bits <= 6 && offset == 4*((1<<uint64(bits)) - 2) && idx == 4*(bits-1) && (forall x :: 0 <= x && x < 265 + offset ==> litEntryOK(h.literalCodes[x])) && (forall x :: 0 <= x && x < 256 ==> h.literalCodes[x]>>24 <= 15) && (forall q :: 0 <= q && q < 21 ==> preEntryOK(origin[q])) && (forall d :: 0 <= d && d < 30 ==> preEntryOK(h.distanceCodes[d]))
 //@   loop 2 invariant 1 <= bits && bits <= 5 && 0 <= i && i <= 4 && offset == 4*((1<<uint64(bits)) - 2) + i*(1<<uint64(bits)) && idx == 4*(bits-1) + i && (forall x :: 0 <= x && x < 265 + offset ==> litEntryOK(h.literalCodes[x])) && (forall x :: 0 <= x && x < 256 ==> h.literalCodes[x]>>24 <= 15) && (forall q :: 0 <= q && q < 21 ==> preEntryOK(origin[q])) && (forall d :: 0 <= d && d < 30 ==> preEntryOK(h.distanceCodes[d]))
-//@   loop 3 invariant 1 <= bits && bits <= 5 && 0 <= i && i < 4 && 0 <= j && j <= 1<<uint64(bits) && offset == 4*((1<<uint64(bits)) - 2) + i*(1<<uint64(bits)) + j && idx == 4*(bits-1) + i + 1 && length <= 15 && code>>length == 0 && code < 16777216 && (forall x :: 0 <= x && x < 265 + offset ==> litEntryOK(h.literalCodes[x])) && (forall x :: 0 <= x && x < 256 ==> h.literalCodes[x]>>24 <= 15) && (forall q :: 0 <= q && q < 21 ==> preEntryOK(origin[q])) && (forall d :: 0 <= d && d < 30 ==> preEntryOK(h.distanceCodes[d]))
+//@   loop 3 invariant 1 <= bits && bits <= 5 && 0 <= i && i < 4 && 0 <= j && j <= 1<<uint64(bits) && offset == 4*((1<<uint64(bits)) - 2) + i*(1<<uint64(bits)) + j && idx == 4*(bits-1) + i + 1 && length <= 15 && code>>length == 0 && code < 16777216 && (forall x :: 0 <= x && x < 265 + offset ==> litEntryOK(h.literalCodes[x])) && (forall x :: 0 <= x && x < 256 ==> h.literalCodes[x]>>24 <= 15) && (forall q :: 0 <= q && q < 21 ==> preEntryOK(origin[q])) && (forall d :: 0 <= d && d < 30 ==> preEntryOK(h.distanceCodes[d])) && (smallCounts(h) ==> (forall y :: 265 <= y && y < curr - j && old(h.literalCodes[y]) != 0 ==> h.literalCodes[lenSymOfSlot(y)] != 0)) && (smallCounts(h) ==> val <= uint32(j)*65535 && (forall z :: curr - j <= z && z < curr && old(h.literalCodes[z]) != 0 ==> val != 0))
 //@   loop 4 invariant 1 <= i && i <= 14 && x == 2 + 2*int(i) && (forall d :: 0 <= d && d < 30 ==> (d < x ==> distEntryOK(h.distanceCodes[d], uint32(d))) && (d >= x ==> preEntryOK(h.distanceCodes[d]))) && (forall y :: 0 <= y && y < 513 ==> litEntryOK(h.literalCodes[y])) && (forall y :: 0 <= y && y < 256 ==> h.literalCodes[y]>>24 <= 15)
 
 //@ func (*dynCompressor).encodeBlock
@@ -233,14 +233,21 @@ package deflate
 //@   modifies buf.idx, buf.bits, buf.bitLen, buf.output[*]
 //@   ensures 0 <= num && num <= len(data) && bufOK(buf) && buf.idx <= len(buf.output) && (num == len(data) ==> buf.idx + 8 <= len(buf.output))
 
+// lenSymOfSlot: the RFC 1951 length symbol (265..284) that covers the per-length counter slot y = 254 + length,
+// for lengths 11..258 (slots 265..512); lengths 3..10 have one symbol each (slots 257..264, untouched).
+//@ pure lenSymOfSlot(y int) int = y < 273 ? 265 + (y-265)/2 : (y < 289 ? 269 + (y-273)/4 : (y < 321 ? 273 + (y-289)/8 : (y < 385 ? 277 + (y-321)/16 : 281 + (y-385)/32)))
+//@ pure smallCounts(h *histogram) bool = forall y :: 265 <= y && y < 513 ==> old(h.literalCodes[y]) <= 65535
+
 //@ func (*histogram).reduceCounts
 //@   modifies h.literalCodes
+//@   ensures[C01 used-length-symbols] (smallCounts(h) ==> (forall y :: 265 <= y && y < 513 && old(h.literalCodes[y]) != 0 ==> h.literalCodes[lenSymOfSlot(y)] != 0))
+//@   ensures[C01 length-258] h.literalCodes[285] == old(h.literalCodes[512])
 //@   ensures forall x :: 0 <= x && x < 265 ==> h.literalCodes[x] == old(h.literalCodes[x])
 //@   ensures forall x :: 286 <= x && x < 513 ==> h.literalCodes[x] == old(h.literalCodes[x])
 //@   ensures (forall y :: 265 <= y && y < 513 ==> old(h.literalCodes[y]) == 0) ==> (forall x :: 265 <= x && x < 286 ==> h.literalCodes[x] == 0)
-//@   loop 1 invariant 1 <= bits && bits <= 6 && curr == 265 + 4*((1<<uint64(bits)) - 2) && idx == 265 + 4*(bits-1) && (forall x :: 0 <= x && x < 265 ==> h.literalCodes[x] == old(h.literalCodes[x])) && (forall x :: idx <= x && x < 513 ==> h.literalCodes[x] == old(h.literalCodes[x])) && ((forall y :: 265 <= y && y < 513 ==> old(h.literalCodes[y]) == 0) ==> (forall x :: 265 <= x && x < idx ==> h.literalCodes[x] == 0))
-//@   loop 2 invariant 1 <= bits && bits <= 5 && 0 <= i && i <= 4 && curr == 265 + 4*((1<<uint64(bits)) - 2) + i*(1<<uint64(bits)) && idx == 265 + 4*(bits-1) + i && (forall x :: 0 <= x && x < 265 ==> h.literalCodes[x] == old(h.literalCodes[x])) && (forall x :: idx <= x && x < 513 ==> h.literalCodes[x] == old(h.literalCodes[x])) && ((forall y :: 265 <= y && y < 513 ==> old(h.literalCodes[y]) == 0) ==> (forall x :: 265 <= x && x < idx ==> h.literalCodes[x] == 0))
-//@   loop 3 invariant 1 <= bits && bits <= 5 && 0 <= i && i < 4 && 0 <= j && j <= 1<<uint64(bits) && curr == 265 + 4*((1<<uint64(bits)) - 2) + i*(1<<uint64(bits)) + j && idx == 265 + 4*(bits-1) + i && (forall x :: 0 <= x && x < 265 ==> h.literalCodes[x] == old(h.literalCodes[x])) && (forall x :: idx <= x && x < 513 ==> h.literalCodes[x] == old(h.literalCodes[x])) && ((forall y :: 265 <= y && y < 513 ==> old(h.literalCodes[y]) == 0) ==> (forall x :: 265 <= x && x < idx ==> h.literalCodes[x] == 0)) && ((forall y :: 265 <= y && y < 513 ==> old(h.literalCodes[y]) == 0) ==> val == 0)
+//@   loop 1 invariant 1 <= bits && bits <= 6 && curr == 265 + 4*((1<<uint64(bits)) - 2) && idx == 265 + 4*(bits-1) && (forall x :: 0 <= x && x < 265 ==> h.literalCodes[x] == old(h.literalCodes[x])) && (forall x :: idx <= x && x < 513 ==> h.literalCodes[x] == old(h.literalCodes[x])) && ((forall y :: 265 <= y && y < 513 ==> old(h.literalCodes[y]) == 0) ==> (forall x :: 265 <= x && x < idx ==> h.literalCodes[x] == 0)) && (smallCounts(h) ==> (forall y :: 265 <= y && y < curr && old(h.literalCodes[y]) != 0 ==> h.literalCodes[lenSymOfSlot(y)] != 0))
+//@   loop 2 invariant 1 <= bits && bits <= 5 && 0 <= i && i <= 4 && curr == 265 + 4*((1<<uint64(bits)) - 2) + i*(1<<uint64(bits)) && idx == 265 + 4*(bits-1) + i && (forall x :: 0 <= x && x < 265 ==> h.literalCodes[x] == old(h.literalCodes[x])) && (forall x :: idx <= x && x < 513 ==> h.literalCodes[x] == old(h.literalCodes[x])) && ((forall y :: 265 <= y && y < 513 ==> old(h.literalCodes[y]) == 0) ==> (forall x :: 265 <= x && x < idx ==> h.literalCodes[x] == 0)) && (smallCounts(h) ==> (forall y :: 265 <= y && y < curr && old(h.literalCodes[y]) != 0 ==> h.literalCodes[lenSymOfSlot(y)] != 0))
+//@   loop 3 invariant 1 <= bits && bits <= 5 && 0 <= i && i < 4 && 0 <= j && j <= 1<<uint64(bits) && curr == 265 + 4*((1<<uint64(bits)) - 2) + i*(1<<uint64(bits)) + j && idx == 265 + 4*(bits-1) + i && (forall x :: 0 <= x && x < 265 ==> h.literalCodes[x] == old(h.literalCodes[x])) && (forall x :: idx <= x && x < 513 ==> h.literalCodes[x] == old(h.literalCodes[x])) && ((forall y :: 265 <= y && y < 513 ==> old(h.literalCodes[y]) == 0) ==> (forall x :: 265 <= x && x < idx ==> h.literalCodes[x] == 0)) && ((forall y :: 265 <= y && y < 513 ==> old(h.literalCodes[y]) == 0) ==> val == 0) && (smallCounts(h) ==> (forall y :: 265 <= y && y < curr - j && old(h.literalCodes[y]) != 0 ==> h.literalCodes[lenSymOfSlot(y)] != 0)) && (smallCounts(h) ==> val <= uint32(j)*65535 && (forall z :: curr - j <= z && z < curr && old(h.literalCodes[z]) != 0 ==> val != 0))
 
 //@ func (*huffmanOnly).encodeBlock
 //@   requires huffOK(h)
